@@ -8,3 +8,107 @@ func init() {
 		return tuple{int64(80), int64(25), iface{}}
 	}
 }
+
+// Timers: within a bounded run no timeout expires (stated assumption). AfterFunc never
+// calls its function, After/NewTimer/Tick channels never deliver.
+func init() {
+	newTimerVal := func(i *Interp, withChan bool) value {
+		// time.Timer{C <-chan Time, r runtimeTimer...}: build a zero Timer and set C
+		p := i.ld.byPath["time"]
+		if p == nil {
+			return (*value)(nil)
+		}
+		tt := p.Type("Timer")
+		if tt == nil {
+			return (*value)(nil)
+		}
+		z := zero(tt.Object().Type())
+		if withChan {
+			if st, ok := z.(structure); ok && len(st) > 0 {
+				st[0] = &channel{cap: 1, elem: p.Type("Time").Object().Type()}
+			}
+		}
+		return &z
+	}
+	intrinsics["time.AfterFunc"] = func(i *Interp, fr *frame, a []value) value { return newTimerVal(i, false) }
+	intrinsics["time.NewTimer"] = func(i *Interp, fr *frame, a []value) value { return newTimerVal(i, true) }
+	intrinsics["time.After"] = func(i *Interp, fr *frame, a []value) value {
+		return &channel{cap: 1, elem: i.ld.byPath["time"].Type("Time").Object().Type()}
+	}
+	intrinsics["time.Tick"] = intrinsics["time.After"]
+	intrinsics["(*time.Timer).Stop"] = func(i *Interp, fr *frame, a []value) value { return true }
+	intrinsics["(*time.Timer).Reset"] = func(i *Interp, fr *frame, a []value) value { return true }
+	intrinsics["(*time.Ticker).Stop"] = func(i *Interp, fr *frame, a []value) value { return nil }
+}
+
+// OS identity: fixed values.
+func init() {
+	intrinsics["os/user.Current"] = func(i *Interp, fr *frame, a []value) value {
+		p := i.ld.byPath["os/user"]
+		ut := p.Type("User").Object().Type()
+		u := zero(ut).(structure)
+		// Uid, Gid, Username, Name, HomeDir
+		vals := []string{"1000", "1000", "verif", "verif", "/home/verif"}
+		for k := range vals {
+			if k < len(u) {
+				u[k] = vals[k]
+			}
+		}
+		v := value(u)
+		return tuple{&v, iface{}}
+	}
+	intrinsics["os.Getuid"] = func(i *Interp, fr *frame, a []value) value { return int64(1000) }
+	intrinsics["os.Geteuid"] = func(i *Interp, fr *frame, a []value) value { return int64(1000) }
+	intrinsics["os.Getgid"] = func(i *Interp, fr *frame, a []value) value { return int64(1000) }
+	intrinsics["os.TempDir"] = func(i *Interp, fr *frame, a []value) value { return "/tmp" }
+}
+
+func init() {
+	intrinsics["github.com/lmorg/murex/utils/crash._crashStack"] = func(i *Interp, fr *frame, a []value) value { return "Stack: (not modelled)\n" }
+	intrinsics["github.com/lmorg/murex/utils/crash._crashHostReport"] = func(i *Interp, fr *frame, a []value) value { return "" }
+	intrinsics["runtime.Callers"] = func(i *Interp, fr *frame, a []value) value { return int64(0) }
+}
+
+// File system: an empty, write-discarding file system (stated assumption in every run that touches it).
+func init() {
+	ok := func(i *Interp, fr *frame, a []value) value { return iface{} }
+	noent := func(what string, results int) intrinsicFn {
+		return func(i *Interp, fr *frame, a []value) value {
+			name := ""
+			if len(a) > 0 {
+				name = toPlain(a[0])
+			}
+			err := i.mkError(what + " " + name + ": no such file or directory")
+			switch results {
+			case 1:
+				return err
+			}
+			return tuple{zeroPtrOrSlice(results), err}
+		}
+	}
+	intrinsics["os.MkdirTemp"] = func(i *Interp, fr *frame, a []value) value { return tuple{"/tmp/murex-verif", iface{}} }
+	intrinsics["os.MkdirAll"] = ok
+	intrinsics["os.Mkdir"] = ok
+	intrinsics["os.Chmod"] = ok
+	intrinsics["os.Remove"] = ok
+	intrinsics["os.RemoveAll"] = ok
+	intrinsics["os.Chdir"] = ok
+	intrinsics["os.Stat"] = noent("stat", 2)
+	intrinsics["os.Lstat"] = noent("lstat", 2)
+	intrinsics["os.Open"] = noent("open", 2)
+	intrinsics["os.OpenFile"] = noent("open", 2)
+	intrinsics["os.Create"] = noent("open", 2)
+	intrinsics["os.ReadFile"] = noent("open", 3)
+	intrinsics["os.ReadDir"] = noent("open", 3)
+	intrinsics["os.WriteFile"] = ok
+	intrinsics["os.Readlink"] = func(i *Interp, fr *frame, a []value) value {
+		return tuple{"", i.mkError("readlink: invalid argument")}
+	}
+}
+
+func zeroPtrOrSlice(kind int) value {
+	if kind == 3 {
+		return []value(nil)
+	}
+	return (*value)(nil)
+}
